@@ -672,6 +672,15 @@ def nontrivial(case):
 
 
 def run(ctx):
+    ctx.assumptions += [
+        "values of the payload crates (serde_json, chrono, time, rust_decimal, bigdecimal, uuid, ipnetwork, mac_address) are "
+        "opaque identities in the model (equal ids = equal Rust values); the harness builds them from integer ids and "
+        "recomputes the id from the extracted value",
+        "Box::new / *x and the representation changes (&str/&String/Cow<str> <-> String, &[u8] <-> Vec<u8>, uuid::fmt "
+        "wrappers <-> Uuid, DateTime<FixedOffset> rebuilt from naive_utc + offset.fix()) are modelled as identity on the "
+        "content; tied by the correspondence, not proved about the crates",
+        "tools/valuetypes.py (translator over the source text of src/value.rs; accepts only the item shapes it knows)",
+    ]
     return vlib.standard_flow(
         ctx, "fa", gen_cases, batch_oracle=batch_oracle, describe=describe, nontrivial=nontrivial, regen=regen,
         model_name="c12",
@@ -712,7 +721,11 @@ def support_lines(case):
 def replay(path):
     obj = json.load(open(path))
     ctx = vlib.Ctx("C12", "quick")
-    ctx.build("fa", model=True, model_name="c12")
+    try:
+        ctx.build("fa", model=True, model_name="c12")
+    except vlib.BuildError as e:
+        print(e)
+        return 1
     if "case" not in obj:
         print(json.dumps(obj, indent=1)[:3000])
         print("no failing input recorded (proof or correspondence broken); re-run ./check C12 quick")
